@@ -283,6 +283,36 @@ def stmt_seeds(dialect):
     return S
 
 
+def sens_seeds():
+    """constant-only terms whose inline form depends on the dialect (string escaping, boolean / array / interval / JSON
+    forms): a render cache keyed without the dialect is only visible on such content"""
+    import datetime
+
+    def col():
+        return Table("t").field("c0")
+
+    BS = "a\\b'c\"d\\"
+    S = {
+        "str": lambda: T.ValueWrapper(BS),
+        "tuple": lambda: T.Tuple(BS, "q'", 1),
+        "isin": lambda: col().isin([BS, "q'"]),
+        "eq_tuple": lambda: col() == T.Tuple(BS, 2),
+        "bool": lambda: T.ValueWrapper(True),
+        "bool_crit": lambda: (col() == True) & (col() != False),  # noqa: E712
+        "array": lambda: T.Array(1, BS),
+        "array_crit": lambda: col() == T.Array("x", "y"),
+        "json": lambda: T.JSON({"k": [1, BS]}),
+        "dict": lambda: T.ValueWrapper({"k": BS}),
+        "interval": lambda: T.Interval(days=1, hours=2),
+        "interval_expr": lambda: col() + T.Interval(days=1, hours=2),
+        "interval_fn": lambda: T.Function("DATE_ADD", col(), T.Interval(hours=36)),
+        "date": lambda: T.ValueWrapper(datetime.date(2020, 1, 2)),
+        "case_const": lambda: T.Case().when(col() == BS, T.Interval(hours=1)).else_(True),
+        "like": lambda: col().like(BS),
+    }
+    return S
+
+
 def setop_seeds(dialect):
     QQ = QCLS[dialect]
 
